@@ -276,7 +276,7 @@ def _build(spec, zero=False):
         if sq == "sumt":          # a sum sequence with a non-zero start (its reset goes to the documented zero)
             seq = lena.math.Sum(0 if zero else _num(spec["t0"]))
         elif sq == "count":       # its first value carries a context
-            seq = lena.flow.Count()
+            seq = lena.flow.Count(spec.get("cname", "count"))
         elif sq == "store":       # a sum sequence that yields several values
             seq = lena.flow.StoreFilled(False)
         elif sq == "fcsum":       # a sum sequence without reset
@@ -560,8 +560,9 @@ def _leaf_table(case):
         if not (isinstance(v, int) and not isinstance(v, bool)) and v is not None:
             tab.setdefault(jdump(_enc(_dec_leaf(v))), 10 ** 9 + len(tab))
     for op in case["ops"]:
-        if op[0] in ("f", "fi") and op[1].get("c"):
-            for v in op[1]["c"].values():
+        vals = [op[1]] if op[0] in ("f", "fi") else (op[1] if op[0] == "run" else [])
+        for val in vals:
+            for v in (val.get("c") or {}).values():
                 if not (isinstance(v, int) and not isinstance(v, bool)) and v is not None:
                     tab.setdefault(jdump(_enc(_dec_leaf(v))), 10 ** 9 + len(tab))
     return tab
@@ -647,7 +648,7 @@ def _main_requests(case):
             return []                  # reset() raises LenaAttributeError: judged by the oracle
         inner = {"sumt": {"k": "sum", "total0": _scaled(spec.get("t0", 0), sh)},
                  "fcsum": {"k": "sum", "total0": 0},
-                 "count": {"k": "count", "name": "count", "count0": 0},
+                 "count": {"k": "count", "name": spec.get("cname", "count"), "count0": 0},
                  "store": {"k": "storeitems"}, "storetag": {"k": "storetag"}}[spec["seq"]]
         el = {"k": "meanover", "inner": inner, "poe": spec["poe"]}
     elif k == "sum":
@@ -1302,7 +1303,7 @@ def _agg_fail(spec, e, fills, start, zero):
         if n == 0:
             return "skip"
         if spec["seq"] == "count":
-            sums = [(Fraction(n), {"count": n})]
+            sums = [(Fraction(n), {spec.get("cname", "count"): n})]
         elif spec["seq"] == "storetag":
             sums = [(_frac(v["d"]), {"v%d" % _num(v["d"]): 1}) for v in fills]
         elif spec["seq"] == "storenest":
@@ -1859,7 +1860,17 @@ def shrink(case):
 
 _CTXS = [None, {}, {"a": 1}, {"a": 2, "b": 3}, {"count": 7}, {"variable": {"name": "x"}, "a": 1}, {"scale": 5}, {"scale": 0},
          {"scale": 6, "g": 1}, {"g": 1, "m": 1}, {"g": 2, "m": 1}, {"g": 1, "m": 2}, {"b": None},
-         {"variable": {"name": "x", "unit": "m"}, "g": 1, "m": 2}, {"variable": {"unit": "m", "name": "x"}, "a": 1}]
+         {"variable": {"name": "x", "unit": "m"}, "g": 1, "m": 2}, {"variable": {"unit": "m", "name": "x"}, "a": 1},
+         # keys are arbitrary strings: dots (a dotted KEY is one key, not a path), blanks, braces, the empty string; keys that
+         # are the first component / the whole of a counter's name, bound to a leaf and to a nested dictionary
+         {"events": 7, "detector": "D1"}, {"events": {"selected": 1, "all": 9}, "a": 1}, {"events.selected": 5, "events": 2},
+         {"": 1, "a b": 2}, {"{x}": 3, "a.b": {"c.d": 1}, "a": {"b": 2}}, {"n": {"n": 1}, "count": {"count": 0}}]
+
+# an element's *name* / key option is any string: the documented key is that string itself ({self.name: self.count}),
+# whatever it contains - a dot does not make it a path, it may be empty, and it may be a key (of a leaf or of a
+# nested dictionary) of the context it is added to
+_NAMES = ["count", "n", "a", "events.selected", "events", "variable.name", "variable", "a.b", "a.b.c", "", "a b", "{x}", "{}",
+          ".", "a.", ".a", "scale", "count.count", "n.n", "my_counter", "x.0", "0"]
 
 
 def _rand_ctx(rng):
@@ -1968,6 +1979,14 @@ def _specs_small():
     out = []
     out.append(({"k": "count", "name": "count", "count0": 0}, 0, [v(5, {"a": 1}), v(7)]))
     out.append(({"k": "count", "name": "n", "count0": 3}, 0, [v(5, {"n": 1}), v(7, {})]))
+    # names that are not plain identifiers, and names that meet keys of the filled contexts: {name: count} is ONE key
+    out.append(({"k": "count", "name": "events.selected", "count0": 0}, 0, [v(5, {"events": 7, "detector": "D1"}), v(7)]))
+    out.append(({"k": "count", "name": "events.selected", "count0": 2}, 0,
+                [v(5, {"events": {"selected": 1, "all": 9}}), v(7, {"events.selected": 5, "events": 2})]))
+    out.append(({"k": "count", "name": "variable", "count0": 0}, 0, [v(5, {"variable": {"name": "x"}, "a": 1}), v(7, {"a": 1})]))
+    out.append(({"k": "count", "name": "", "count0": 0}, 0, [v(5, {"": 1, "a b": 2}), v(7, {"a": 1})]))
+    out.append(({"k": "count", "name": "a b {x}", "count0": 1}, 0, [v(5, {"{x}": 3}), v(7, {"a b {x}": None})]))
+    out.append(({"k": "count", "name": "a.b.c", "count0": 0, "via": "fr"}, 0, [v(5, {"a": {"b": 2}}), v(7, {"a": {"b": {"c": 1}}})]))
     out.append(({"k": "sum", "total0": 0}, 0, [v(5, {"a": 1}), v(-7)]))
     out.append(({"k": "sum", "total0": _mknum(1.5)}, 1, [v(_mknum(0.5), {"a": 1}), v(2)]))
     out.append(({"k": "dsum", "total0": 0}, 0, [v(_mknum(0.1), {"a": 1}), v(_mknum(1e100))]))
@@ -1979,6 +1998,8 @@ def _specs_small():
     # Mean around other sum sequences: non-zero start, a first value with context, several values, no reset
     out.append(({"k": "mean", "seq": "sumt", "t0": 5, "poe": False}, 0, [v(3, {"a": 1}), v(4)]))
     out.append(({"k": "mean", "seq": "count", "poe": False}, 0, [v(3, {"a": 1}), v(4, {"count": 9})]))
+    out.append(({"k": "mean", "seq": "count", "cname": "events.selected", "poe": False}, 0,
+                [v(3, {"events": 7}), v(4, {"events": {"selected": 9}})]))
     out.append(({"k": "mean", "seq": "store", "poe": True}, 0, [v(3, {"a": 1}), v(4)]))
     out.append(({"k": "mean", "seq": "fcsum", "poe": False}, 0, [v(3, {"a": 1}), v(4)]))
     out.append(({"k": "mean", "seq": "storetag", "poe": False}, 0, [v(3, {"a": 1}), v(-4, {"v3": 7})]))
@@ -2051,6 +2072,8 @@ def _specs_small():
     for inner in inners:
         out.append(({"k": "vec", "inner": inner, "list": False, "dim": 2}, 0, [v([1, 2], {"a": 1}), v([3, 5])]))
     out.append(({"k": "vec", "inner": inners[0], "list": False, "dim": 2}, 0, [v([1], {"a": 1}), v([3, 5, 7])]))
+    out.append(({"k": "vec", "inner": {"k": "count", "name": "events.selected", "count0": 0}, "list": False, "dim": 2}, 0,
+                [v([1, 2], {"events": 7}), v([3, 5])]))
     # components that are FillComputeSeq-s (Vectorize reaches the accumulators through _fill_compute)
     out.append(({"k": "vec", "inner": inners[0], "list": False, "dim": 2, "wrap": 2}, 0, [v([1, 2], {"a": 1}), v([3, 5])]))
     out.append(({"k": "vec", "inner": inners[0], "list": False, "dim": 3, "wrap": 1}, 0, [v([1, 2, 4], {"a": 1}), v([3, 5, 6])]))
@@ -2168,7 +2191,7 @@ def _rand_case0(rng, maxlen):
     sh = rng.choice([0, 0, 1, 3, 10, 20])
     ctx = lambda: _rand_ctx(rng)
     if kind == "count":
-        spec = {"k": "count", "name": rng.choice(["count", "n", "a"]), "count0": rng.choice([0, 0, 3, -2])}
+        spec = {"k": "count", "name": rng.choice(_NAMES), "count0": rng.choice([0, 0, 3, -2])}
         mk = lambda: {"d": _rand_num(rng, sh, 30), "c": ctx()}
     elif kind == "sum":
         r = rng.random()
@@ -2205,6 +2228,8 @@ def _rand_case0(rng, maxlen):
         spec = {"k": "mean", "seq": sq, "poe": rng.random() < 0.4}
         if sq == "sumt":
             spec["t0"] = _rand_num(rng, sh, 20)
+        if sq == "count" and rng.random() < 0.6:      # the sum sequence's own key is its name, any string
+            spec["cname"] = rng.choice(_NAMES)
         if sq in ("storetag", "storenest"):
             mk = lambda: {"d": rng.randint(-9, 9), "c": rng.choice([None, {"a": 1}, {"n": {"z": 1}, "w": 0}, {"v3": 5}])}
         else:
@@ -2237,7 +2262,8 @@ def _rand_case0(rng, maxlen):
                                 rng.choice(["none", {"t0": rng.choice([-3, 2, 7, 10 ** 3])}])]
         typed = _Typed(rng, sh, [3, 10, 22], False, p_int=0.15)
         mk = lambda: {"d": typed(), "c": ctx()}
-        on_reset = typed.reset
+        # an element without a reset method keeps its (possibly float) totals over a "reset" of the history
+        on_reset = typed.reset if _vmc_resettable(spec) else None
     elif kind == "store":
         spec = {"k": "store", "group": rng.random() < 0.5}
         mk = lambda: {"d": _rand_num(rng, sh, 10), "c": ctx()}
@@ -2323,7 +2349,8 @@ def _rand_case0(rng, maxlen):
                 x = [_rand_num(rng, sh, 3) for _ in range(n)]
             return {"d": [x, _rand_num(rng, sh, 4)], "c": ctx()}
     else:
-        inner = rng.choice([{"k": "sum", "total0": 0}, {"k": "sum", "total0": 0}, {"k": "count", "name": "count", "count0": 0},
+        inner = rng.choice([{"k": "sum", "total0": 0}, {"k": "sum", "total0": 0},
+                            {"k": "count", "name": rng.choice(_NAMES), "count0": 0},
                             {"k": "mean", "seq": rng.choice([None, "sum", "dsum"]), "poe": rng.random() < 0.5},
                             {"k": "vmc", "corrected": rng.random() < 0.5, "poe": rng.random() < 0.5},
                             {"k": "store", "group": rng.random() < 0.5}])
@@ -2375,9 +2402,15 @@ def _rand_case0(rng, maxlen):
 
 def _countrun_cases(quick):
     v = lambda d, c=None: {"d": d, "c": c}
-    for spec in ({"k": "countrun", "name": "count", "count0": 0}, {"k": "countrun", "name": "n", "count0": 2}):
+    for spec in ({"k": "countrun", "name": "count", "count0": 0}, {"k": "countrun", "name": "n", "count0": 2},
+                 {"k": "countrun", "name": "events.selected", "count0": 0}, {"k": "countrun", "name": "", "count0": 1}):
         alphabet = [["run", [v(1), v(2, {"a": 1})]], ["run", []], ["run", [v(3, {"n": 5})]], ["f", v(4, {"b": 1})],
                     ["fi", v(6, {"c": 1})], ["fi", v(7)], ["c"], ["r"]]
+        if spec["name"] not in ("count", "n"):
+            # the name meets keys of the values' contexts: its first component bound to a leaf / to a dictionary, itself
+            alphabet = [["run", [v(1), v(2, {"events": 7, "a": 1})]], ["run", []], ["run", [v(3, {"events": {"selected": 5}})]],
+                        ["f", v(4, {"events": 1, "": 0})], ["fi", v(6, {"events": 7, "": {"": 1}})],
+                        ["fi", v(7, {"events.selected": 9})], ["c"], ["r"]]
         for h in _all_histories(alphabet, 3 if quick else 4):
             yield {"el": spec, "ops": h, "sh": 0}
 
